@@ -321,6 +321,56 @@ func TestVerifC06Upstream(t *testing.T) {
 
 		return nil
 	})
+	// Upstream TCP replies whose length prefix announces fewer octets than a
+	// DNS header (1..11), delivered completely: however the reply is rejected,
+	// the next exchange - answered correctly and at once - must decode as on a
+	// fresh upstream; octets of the short frame must not be taken for its
+	// reply.
+	vrt.Part(r, "upstream-short-frame", func(emit func(c06lCase)) {
+		for _, l := range []int{1, 2, 5, 11} {
+			for _, n := range []int{1, 2} {
+				emit(c06lCase{Network: "tcp", Cut: l, Slow: n})
+			}
+		}
+	}, func(c c06lCase) []vrt.Finding {
+		raw := make([]byte, 2+c.Cut)
+		binary.BigEndian.PutUint16(raw, uint16(c.Cut))
+		for i := range raw[2:] {
+			raw[2+i] = byte(0x11 * (i + 1))
+		}
+		run := func(slow int) string {
+			u := NewUpstreamPlain(&UpstreamPlainConfig{Network: NetworkTCP, Address: netip.MustParseAddrPort("192.0.2.53:53"), Timeout: time.Second})
+			f := func(_ context.Context) (net.Conn, error) {
+				return &c06sConn{tcp: true, cut: len(raw), probe: probeName, probeReply: full, rawSlow: raw}, nil
+			}
+			u.connsPoolUDP = pool.NewPool(4, f)
+			u.connsPoolTCP = pool.NewPool(4, f)
+			for i := 0; i < slow; i++ {
+				req := &dns.Msg{}
+				req.SetQuestion("victim-a.example.", dns.TypeA)
+				req.Id = 0x1000
+				_, _, _ = u.Exchange(context.Background(), req)
+			}
+			req := &dns.Msg{}
+			req.SetQuestion(probeName, dns.TypeA)
+			req.Id = 0x7777
+			resp, _, err := u.Exchange(context.Background(), req)
+			if err != nil {
+				return "err " + err.Error()
+			}
+
+			return strings.Join(strings.Fields(resp.String()), " ")
+		}
+		got, want := run(c.Slow), run(0)
+		r.Trans(c.Slow + 2)
+		r.Class("upstream-short-frame")
+		r.State(fmt.Sprint("short", c.Cut, c.Slow, got == want))
+		if got != want {
+			return vrt.F("decode-depends-on-history/upstream-short-frame", "upstream tcp: %d earlier exchange(s) answered with a frame that announces %d octets, then a query for %s that is answered correctly:\n   this upstream : %s\n   fresh upstream: %s", c.Slow, c.Cut, probeName, got, want)
+		}
+
+		return nil
+	})
 	r.Finish()
 	os.Exit(0)
 }
@@ -343,10 +393,13 @@ type c06sConn struct {
 	probe      string
 	probeReply []byte
 	slowReply  []byte
-	out        []byte
-	inbox      [][]byte
-	late       [][]byte
-	closed     bool
+	// rawSlow, when set, is sent instead of the framed slowReply: the octets
+	// of the stream exactly as given.
+	rawSlow []byte
+	out     []byte
+	inbox   [][]byte
+	late    [][]byte
+	closed  bool
 }
 
 func (c *c06sConn) frame(b []byte) []byte {
@@ -383,6 +436,9 @@ func (c *c06sConn) Write(p []byte) (int, error) {
 		return len(p), nil
 	}
 	f := c.frame(c.slowReply)
+	if c.rawSlow != nil {
+		f = c.rawSlow
+	}
 	k := min(c.cut, len(f))
 	if c.tcp {
 		if k > 0 {
